@@ -80,6 +80,50 @@ def instrumented(rec):
             atoms.append((a.term.name, a.term.arguments[0].number, tuple(els), a.literal))
         rec["atoms"][horizon] = atoms
         return orig_tt(self, horizon, _PrgProxy(prg, rec.setdefault("backend", [])))
+    # clause level: which integrity constraints does one connective / induction step / equivalence write?
+    clog = rec.setdefault("clause_calls", [])
+    blog = rec.setdefault("backend", [])
+    stack = []
+    def own_rules(start_box):
+        return [st for st in blog[start_box[0]:] if st[0] == "rule" and len(st[1]) == 0 and not st[3]]
+    def child_lit(f, step):
+        d = f._BodyFormula__data.get(step)
+        return None if d is None else d.literal
+    orig_bool = bd.BooleanFormula.do_translate
+    orig_tel = bd.TelFormula._translate
+    orig_meq = bd.make_equal
+    def wrap_call(fn, describe):
+        def w(self, ctx, step, data, *a):
+            fresh = data.literal is None
+            box = [len(blog)]
+            stack.append(box)
+            try:
+                return fn(self, ctx, step, data, *a)
+            finally:
+                stack.pop()
+                if fresh:
+                    try:
+                        clog.append(describe(self, step, data, a) + (own_rules(box),))
+                    except Exception as e:  # noqa
+                        clog.append(("error", str(e)[:100], []))
+                if stack:
+                    stack[-1][0] = len(blog)
+        return w
+    def d_bool(self, step, data, a):
+        return ("bool", self._BooleanFormula__operator, data.literal, child_lit(self._BooleanFormula__lhs, step), child_lit(self._BooleanFormula__rhs, step))
+    def d_tel(self, step, data, a):
+        lhs = None if self._lhs is None else child_lit(self._lhs, step)
+        return ("tel", self._op, data.literal, lhs, child_lit(self._rhs, step), a[0])
+    def meq(backend, x, y):
+        n = len(blog)
+        r = orig_meq(backend, x, y)
+        clog.append(("eq", x, y, [st for st in blog[n:] if st[0] == "rule"]))
+        if stack:
+            stack[-1][0] = len(blog)
+        return r
+    bd.BooleanFormula.do_translate = wrap_call(orig_bool, d_bool)
+    bd.TelFormula._translate = wrap_call(orig_tel, d_tel)
+    bd.make_equal = meq
     bd.BodyFormula.translate = translate
     ty.Theory.translate = ttranslate
     try:
@@ -87,6 +131,9 @@ def instrumented(rec):
     finally:
         bd.BodyFormula.translate = orig_tr
         ty.Theory.translate = orig_tt
+        bd.BooleanFormula.do_translate = orig_bool
+        bd.TelFormula._translate = orig_tel
+        bd.make_equal = orig_meq
 
 def run(text, H):
     """returns (models per horizon, rec) where rec['vals'][h] is a list of (atomset, {lit: bool}) per answer set"""
@@ -146,6 +193,10 @@ def check_equations(text, H, model_exe):
         if bad:
             dis.append({"layer": "L4-shape", "text": text, "what": "the translation of body formulas added a statement that is neither a "
                         "choice on a fresh atom, an external on a fresh atom nor an integrity constraint", "statements": [str(b) for b in bad[:5]]})
+    ncl, cdis = check_clauses(rec, model_exe)
+    for d in cdis[:3]:
+        d["text"] = text
+        dis.append(d)
     npairs = neq = 0
     lines, hs = [], []
     for h in sorted(rec["vals"]):
@@ -195,7 +246,48 @@ def check_equations(text, H, model_exe):
                     bad.update({"layer": "L4", "text": text, "h": h})
                     dis.append(bad)
                     break
-    return {"pairs": npairs, "equations_evaluated": neq, "horizons": len(hs), "backend_statements": len(rec.get("backend", []))}, dis
+    return {"pairs": npairs, "equations_evaluated": neq, "horizons": len(hs), "backend_statements": len(rec.get("backend", [])), "clause_steps": ncl}, dis
+
+def check_clauses(rec, model_exe):
+    """
+    Clause level (theorems `boolClauses_ok`, `telClauses_ok`, `makeEqual_ok`): the integrity constraints written for every
+    Boolean connective, temporal induction step and equivalence of the run must be the model's, literal for literal.
+    """
+    calls = rec.get("clause_calls", [])
+    lines, metas = [], []
+    for c in calls:
+        if c[0] == "bool":
+            _, op, lit, lhs, rhs, rules = c
+            if None in (lit, lhs, rhs):
+                metas.append((c, None)); continue
+            lines.append(tl.sexp(("clauses", "bool", tl.QStr(op), lit, lhs, rhs))); metas.append((c, len(lines) - 1))
+        elif c[0] == "tel":
+            _, op, lit, lhs, rhs, pre, rules = c
+            if None in (lit, rhs, pre):
+                metas.append((c, None)); continue
+            dual = 1 if op in ("<*", ">*") else 0
+            lines.append(tl.sexp(("clauses", "tel", dual, lit, "none" if lhs is None else lhs, rhs, pre))); metas.append((c, len(lines) - 1))
+        elif c[0] == "eq":
+            lines.append(tl.sexp(("clauses", "eq", c[1], c[2]))); metas.append((c, len(lines) - 1))
+        else:
+            metas.append((c, None))
+    outs = model_exe.batch(lines) if lines else []
+    dis = []
+    canon = lambda cl: sorted(tuple(sorted(x)) for x in cl)
+    for c, i in metas:
+        if i is None:
+            dis.append({"layer": "L4-clauses", "what": "could not read the literals of a translation step", "call": str(c)[:200]})
+            continue
+        want = canon([[int(x) for x in cl] for cl in tl.parse_sexp(outs[i])])
+        rules = c[-1]
+        if c[0] == "eq" and any(len(st[1]) != 0 or st[3] for st in rules):
+            dis.append({"layer": "L4-clauses", "what": "make_equal wrote something that is not an integrity constraint", "call": str(c)[:300]})
+            continue
+        got = canon([list(st[2]) for st in rules])
+        if got != want:
+            dis.append({"layer": "L4-clauses", "what": "the constraints written differ from the model's clauses", "call": str(c[:-1]),
+                        "model": want, "impl": got})
+    return len(metas), dis
 
 # --------------------------------------------------------------------------- head formulas (C04)
 
